@@ -72,9 +72,13 @@ var progTargets = []pgTarget{
 	{"parsley", "", "NewFileSet"}, {"text", "Position", "String"},
 	{"text/terminal", "", "unquoteString"},
 	{"text", "", "NewFile"},
-	// asked for, outside the subset (listed in untranslatedProg with the reason): calls methods of the opaque interfaces
-	// parsley.Error and parsley.Position
+	// the error-rendering path (progerr.go has the extensions of the subset these need)
+	{"parsley", "nilPosition", "String"},
 	{"parsley", "FileSet", "ErrorWithPosition"},
+	{"parsley", "NotFoundError", "Error"}, {"parsley", "whitespaceError", "Error"}, {"parsley", "", "NewWhitespaceError"},
+	{"parsley", "err", "Error"}, {"parsley", "err", "Pos"}, {"parsley", "err", "Cause"},
+	// parsley.NewError is NOT asked for: its type switch is outside the subset, and the reader (SkipWhitespaces) uses it as an
+	// opaque constructor (pgOpaqueCtor), which a failed target of that name would turn into a refusal of the reader
 }
 
 type pgErr struct{ msg string }
@@ -101,6 +105,7 @@ type pgGen struct {
 	sdone      map[string]bool
 	problem    []string
 	impl       map[*types.TypeName]*types.Named       // interface -> the struct type its method calls are dispatched to
+	ld         *concLoader                            // progerr.go: the loader, for the candidates of a dynamic dispatch
 	normalised map[*ast.BlockStmt]map[*types.Var]bool // gonorm.go: the bodies already normalised, with their per-round variables
 	textVars   map[*types.Var]bool                    // progtext.go pgTextVars: string variables that hold text (Lean `String`)
 }
@@ -735,6 +740,9 @@ func (c *pgCtx) binary(x *ast.BinaryExpr) (pre []string, code string, mon bool) 
 			}
 		}
 	}
+	if p, code, ok := c.objEq(x); ok { // progerr.go: an interface value against a constant of a named integer type
+		return append(pre, p...), code, false
+	}
 	if pgIsString(tx) && pgIsString(ty) && (x.Op == token.EQL || x.Op == token.NEQ) {
 		text := c.strKind(x.X) == pgText || c.strKind(x.Y) == pgText
 		a := c.strVal(x.X, text, &pre)
@@ -915,6 +923,9 @@ func (c *pgCtx) call(x *ast.CallExpr) (pre []string, code string, mon bool) {
 			return c.parts(x.Args[0])
 		}
 		return c.convert(x, from, to)
+	}
+	if p, code, m, ok := c.objMethod(x); ok { // progerr.go: a method of an opaque interface value
+		return p, code, m
 	}
 	fn, recv, obj := c.callee(x)
 	if b, ok := obj.(*types.Builtin); ok && b.Name() == "append" && x.Ellipsis.IsValid() {
@@ -1936,6 +1947,7 @@ func writeProgFacts(path string) error {
 	l := &concLoader{fset: fset, module: readModulePath(repo), root: repo, pkgs: map[string]*concPkg{}, loading: map[string]bool{}}
 	l.std = importer.ForCompiler(fset, "source", nil)
 	var bad []string
+	g.ld = l
 	bad = append(bad, g.resolveImpl(l)...)
 	for _, t := range progTargets {
 		key := t.name
@@ -1961,6 +1973,8 @@ func writeProgFacts(path string) error {
 				recv := ""
 				if r := obj.Type().(*types.Signature).Recv(); r != nil {
 					if n, _ := pgStructOf(r.Type()); n != nil {
+						recv = n.Obj().Name()
+					} else if n, ok := r.Type().(*types.Named); ok && (pgIsInt(n) || pgIsString(n)) { // a method of a named integer / string type
 						recv = n.Obj().Name()
 					} else {
 						recv = "?"
